@@ -14,7 +14,7 @@
    exactly those shapes.  Equal.current_fixes names the variant that the
    correspondence check ties to the code. *)
 From Stackage Require Import Base Generated StackImpl Values EqualBase EqualSpec EqualSpecCorr Equal EqualProofs.
-From Stackage Require DerefTie.
+From Stackage Require DerefTie EqualTie.
 Open Scope Z_scope.
 
 (* For EVERY receiver x (initialised Stack or Condition) and EVERY argument y
@@ -186,3 +186,31 @@ Theorem c05_pointer_chase_is_the_source_loop :
   (forall (n : nat) (g : gval), DerefTie.is_ptr g = false -> gunder (DerefTie.ptrs n g) = Some g).
 Proof. split; [exact DerefTie.gunder_iteration|exact DerefTie.gunder_any_depth]. Qed.
 Print Assumptions c05_pointer_chase_is_the_source_loop.
+
+(* "including any single element of a ... map leaf": the model's key loop is
+   the loop of mapsEqual (Generated.g_mapsEqual_body, regenerated from misc.go:
+   a missing key or a differing value ends the comparison at once, only an
+   equal value lets it go on), so a differing entry decides wherever it stands
+   among the keys *)
+Theorem c05_map_loop_is_the_source_loop :
+  forall (rec : value -> value -> res bool),
+  (forall k v t ky,
+     map_loop rec ((k, v) :: t) ky =
+     match glookup k ky with
+     | None => match Generated.g_mapsEqual_body false false with TCut 0 _ _ => Ok false | _ => Unmodelled end
+     | Some v' =>
+         let r := rec (VLeaf v) (VLeaf v') in
+         match Generated.g_mapsEqual_body true (negb (EqualTie.ok_true r)) with
+         | TCut 1 _ _ => r
+         | TRet _ _ => map_loop rec t ky
+         | _ => Unmodelled
+         end
+     end) /\
+  (forall pre k v v' t ky,
+     (forall p q, In (p, q) pre -> exists q', glookup p ky = Some q' /\ rec (VLeaf q) (VLeaf q') = Ok true) ->
+     glookup k ky = Some v' -> rec (VLeaf v) (VLeaf v') = Ok false ->
+     map_loop rec (pre ++ (k, v) :: t) ky = Ok false).
+Proof.
+  intros rec. split; [exact (EqualTie.map_loop_iteration rec)|exact (EqualTie.map_loop_first_difference rec)].
+Qed.
+Print Assumptions c05_map_loop_is_the_source_loop.
